@@ -8,6 +8,7 @@ import (
 	"encoding/binary"
 	"fmt"
 	"hash/fnv"
+	"strconv"
 	"strings"
 
 	. "golang.org/x/telemetry/internal/verifh/vhlib"
@@ -249,6 +250,17 @@ func Name(r *Rand) string {
 		return StackName(r)
 	}
 	return NameOfLen(r, NameLen(r))
+}
+
+// NameInBucket returns a short name that the format hashes to bucket b.
+func NameInBucket(r *Rand, b uint32) string {
+	base := NameOfLen(r, 1+r.Intn(6))
+	for i := 0; ; i++ {
+		n := base + strconv.Itoa(i)
+		if Hash(n) == b {
+			return n
+		}
+	}
 }
 
 // Names returns k distinct names.
